@@ -30,11 +30,23 @@ use nodes::*;
 use srcgen::*;
 use vh::*;
 
-fn err_variants(errs: &[bwl::Error]) -> Vec<String> {
+/// Error variants by name. "Located errors": every error must render (message, labels,
+/// notes — a panic here is caught by the caller) and every label must point at a valid
+/// range of the source; a label that does not is reported as the pseudo-variant
+/// `BadSpan:<variant>`.
+fn err_variants_in(src: &str, errs: &[bwl::Error]) -> Vec<String> {
     errs.iter()
         .map(|e| {
             let d = format!("{e:?}");
-            d.split(|c: char| !c.is_alphanumeric()).next().unwrap_or("").to_string()
+            let name = d.split(|c: char| !c.is_alphanumeric()).next().unwrap_or("").to_string();
+            let _ = e.message();
+            let _ = e.notes();
+            for l in e.labels() {
+                if l.span.start > l.span.end || src.get(l.span.clone()).is_none() {
+                    return format!("BadSpan:{name}");
+                }
+            }
+            name
         })
         .collect()
 }
@@ -68,7 +80,7 @@ fn print_v(list: &[ds::Vertical], style: u32) -> String {
 }
 
 fn parse_h(src: &str) -> Result<Vec<ds::Horizontal>, Vec<String>> {
-    bwl::parse_horizontal_list(src).map_err(|e| err_variants(&e))
+    bwl::parse_horizontal_list(src).map_err(|e| err_variants_in(src, &e))
 }
 
 fn parse_v(src: &str) -> Result<Vec<ds::Vertical>, Vec<String>> {
@@ -76,12 +88,12 @@ fn parse_v(src: &str) -> Result<Vec<ds::Vertical>, Vec<String>> {
     let v = bwl::ast::parse_vbox_using_cst(bwl::cst::parse(src, errs.clone()), &errs);
     match errs.check() {
         Ok(()) => Ok(v.to_boxworks()),
-        Err(e) => Err(err_variants(&e)),
+        Err(e) => Err(err_variants_in(src, &e)),
     }
 }
 
 fn real_format(src: &str) -> Result<String, Vec<String>> {
-    bwl::format(src).map_err(|e| err_variants(&e))
+    bwl::format(src).map_err(|e| err_variants_in(src, &e))
 }
 
 fn cps(s: &str) -> String {
@@ -343,6 +355,14 @@ impl C18 {
                 out.tag("parse_h:err");
                 for v in e {
                     out.tag(format!("error:{v}"));
+                    if let Some(name) = v.strip_prefix("BadSpan:") {
+                        out.fail(
+                            Kind::ImplVsSpec,
+                            stream_t,
+                            format!("error {name} is not located: a label's span is not a valid range of the source"),
+                            format!("errors {e:?}"),
+                        );
+                    }
                 }
                 out.nontrivial = true;
             }
@@ -669,7 +689,7 @@ impl Property for C18 {
             }
         }
         // random lists
-        let n_rt = if ctx.thorough { 12000 } else { 1500 };
+        let n_rt = if ctx.thorough { 150000 } else { 6000 };
         for i in 0..n_rt {
             let wild = i % 8 == 7;
             let mut g = Gen { rng, wild };
@@ -680,11 +700,11 @@ impl Property for C18 {
             v.push(rt(m, style, &l));
         }
         // sources
-        let mut pool: Vec<String> = repo_corpus(&ctx.repo, rng, if ctx.thorough { 40 } else { 4 });
+        let mut pool: Vec<String> = repo_corpus(&ctx.repo, rng, if ctx.thorough { 150 } else { 6 });
         for s in &pool {
             v.push(format!("src {}", hex(s)));
         }
-        let n_src = if ctx.thorough { 16000 } else { 2000 };
+        let n_src = if ctx.thorough { 200000 } else { 8000 };
         for i in 0..n_src {
             let mut g = SrcGen { rng, err_pct: if i % 3 == 0 { 20 } else { 0 } };
             let mode = if g.rng.chance(3, 4) { 'H' } else { 'V' };
@@ -694,7 +714,7 @@ impl Property for C18 {
                 pool.push(s);
             }
         }
-        let n_mut = if ctx.thorough { 16000 } else { 2000 };
+        let n_mut = if ctx.thorough { 200000 } else { 8000 };
         for _ in 0..n_mut {
             let base = rng.pick(&pool).clone();
             if base.len() > 3000 {
@@ -702,7 +722,7 @@ impl Property for C18 {
             }
             v.push(format!("src {}", hex(&mutate(rng, &base))));
         }
-        let n_soup = if ctx.thorough { 12000 } else { 1500 };
+        let n_soup = if ctx.thorough { 150000 } else { 6000 };
         for _ in 0..n_soup {
             v.push(format!("src {}", hex(&soup(rng))));
         }
